@@ -44,21 +44,76 @@ fn c19(ctx: &CheckCtx) -> CheckResult {
         complete: false,
         ..Mode::default()
     };
-    // every family gets its share of the wall-clock budget (unused time rolls over to the next)
-    let total = if ctx.tier.is_thorough() { 1380.0 } else { 40.0 };
-    let t0 = std::time::Instant::now();
-    let mut weight_left: f64 = FAMILIES.iter().map(|f| f.1).sum();
-    for (f, w) in FAMILIES.iter() {
-        let left = (total - t0.elapsed().as_secs_f64()).max(1.0);
-        let share = left * w / weight_left;
-        weight_left -= w;
-        vx::checks::run_e2_with(ctx, &mut res, &[(*f, set, mode.clone())], &[VKind::Sound, VKind::Enabled, VKind::Ending, VKind::Abort], share, &family);
+    let wanted = [VKind::Sound, VKind::Enabled, VKind::Ending, VKind::Abort];
+    if ctx.tier.is_thorough() {
+        // one family after the other, 16 workers each; every family gets its share of the wall-clock
+        // budget (unused time rolls over to the next)
+        let total = 1380.0;
+        let t0 = std::time::Instant::now();
+        let mut weight_left: f64 = FAMILIES.iter().map(|f| f.1).sum();
+        for (f, w) in FAMILIES.iter() {
+            let left = (total - t0.elapsed().as_secs_f64()).max(1.0);
+            let share = left * w / weight_left;
+            weight_left -= w;
+            vx::checks::run_e2_with(ctx, &mut res, &[(*f, set, mode.clone())], &wanted, share, &family);
+        }
+    } else {
+        // the quick sets are small: all families at once (start-up and tail latencies overlap), each
+        // with the whole budget as its cap
+        let parts: Vec<CheckResult> = std::thread::scope(|sc| {
+            let hs: Vec<_> = FAMILIES
+                .iter()
+                .map(|(f, _)| {
+                    let mode = mode.clone();
+                    let wanted = wanted.clone();
+                    sc.spawn(move || {
+                        let mut r = CheckResult::new("model_checking");
+                        vx::checks::run_e2_with(ctx, &mut r, &[(*f, set, mode)], &wanted, 38.0, &family);
+                        r
+                    })
+                })
+                .collect();
+            hs.into_iter().map(|h| h.join().expect("family thread")).collect()
+        });
+        for p in parts {
+            merge(&mut res, p);
+        }
     }
     res.cov("rule", format!("{}; C19: the explorer additionally branches over a per-program data menu at every first `next_u64` of a burst (Notify's random waiter choice), re-draws of a rejection-sampling loop are answered with 0", vx::checks::e2_rule()));
     res.assumptions.push("small-scope: programs up to the stated size only".into());
     res.assumptions.push("reference models written from tokio's documentation of sync::{mpsc, oneshot, watch, Notify, Mutex, RwLock, Semaphore}, task::{spawn, JoinHandle, JoinSet} (DESIGN.md Appendix A, tokio paragraph); entry points that are `unimplemented!()` in the wrapper are excluded".into());
     res.assumptions.push("blocking_* operations are only used by plain threads and by tasks that never await (the shape of a spawn_blocking closure), as tokio requires".into());
     res
+}
+
+/// Fold the result of one family's run into the check's result.
+fn merge(res: &mut CheckResult, p: CheckResult) {
+    for (k, v) in p.coverage {
+        match (k.as_str(), v) {
+            ("families", serde_json::Value::Array(a)) => {
+                let e = res.coverage.entry("families".to_string()).or_insert_with(|| json!([]));
+                e.as_array_mut().unwrap().extend(a);
+            }
+            ("samples", serde_json::Value::Array(a)) => {
+                for s in a.into_iter().take(2) {
+                    res.sample(s);
+                }
+            }
+            ("exhaustive", serde_json::Value::Bool(b)) => {
+                let cur = res.coverage.get("exhaustive").and_then(|v| v.as_bool()).unwrap_or(true);
+                res.cov("exhaustive", cur && b);
+            }
+            (k, v) => {
+                if let Some(n) = v.as_u64() {
+                    res.add_count(k, n);
+                } else {
+                    res.coverage.insert(k.to_string(), v);
+                }
+            }
+        }
+    }
+    res.findings.extend(p.findings);
+    res.machinery_errors.extend(p.machinery_errors);
 }
 
 fn replay_file(id: &str, path: &str) -> ! {
@@ -194,7 +249,6 @@ fn main() {
             for (k, (c, first)) in keys {
                 println!("  {} x{} first #{}", k, c, first);
             }
-            let _ = json!(null);
         }
         Some("worker") => {
             // worker <family> <set> <mode-json> <shard> <nshards> <from> <only|-> <deadline>
